@@ -28,12 +28,20 @@ THEOREMS = [
     'AbacusVerif.TwoPass.fastConcat_spec',
     'AbacusVerif.TwoPass.fastConcat_branches',
     'AbacusVerif.TwoPass.fastConcat_schedule_independent',
+    'AbacusVerif.TwoPass.schedule_independent_all',
+    'AbacusVerif.TwoPass.fastConcat_threads',
     'AbacusVerif.TwoPass.searchsorted_pointwise',
+    'AbacusVerif.TwoPass.searchsorted_spec',
+    'AbacusVerif.TwoPass.store_interleave',
+    'AbacusVerif.TwoPass.fill_interleave',
+    'AbacusVerif.TwoPass.count_interleave',
+    'AbacusVerif.TwoPass.fastConcat_interleave',
     'AbacusVerif.TwoPass.rint_linspace_blocks',
     'AbacusVerif.TwoPass.fastConcat_concrete',
     'AbacusVerif.TwoPass.twoPass_concrete',
 ]
 DRIVER = 'drv_c10'
+LEAN_MODULES = ['AbacusVerif.Props.C10', 'AbacusVerif.Props.C10Conc']
 NMAX = 16
 RULE = ('one evaluation = one real run at one thread count: gen_gal_cat(tables, tracers, Nthread=n) for n = 1..16 on '
         'synthetic halo/particle tables (sizes 0..40 / 0..200 incl. every size not divisible by n and fewer rows than '
@@ -136,6 +144,11 @@ def build_case_tables(c):
     pb['ppos'][:, 1] = rng.integers(-1600, 1600, P) / 4.0
     pb['ppos'][:, 2] = rng.integers(-2048, 2048, P) / 4.0
     pb['pvel'] = rng.integers(-600, 601, (P, 3)).astype(np.float64)
+    if c.get('origin'):
+        # light-cone RSD displaces x, y and z: rows are then recognised by (id, vx) instead of x, so give the
+        # particles of a host pairwise different vx (vx = hv + alpha_s (pv - hv) is injective in pv)
+        part['pvel'][:, 0] = rng.permutation(P).astype(np.float64) - 350.0
+        pb['pvel'][:, 0] = rng.permutation(P).astype(np.float64) - 350.0
     pb['phvel'] = hb['hvel'][part['pinds']].copy()
     pb['phid'] = hb['hid'][part['pinds']].copy()
     return (halo, part), (hb, pb)
@@ -147,8 +160,13 @@ def structural_oracle(c, n, fam, tables, tracers, out, keep_cent):
     placement[tracer] = (host rows of the centrals, particle rows of the satellites), None where a row is not
     an input row."""
     halo, part = tables
-    hx = {float(x): i for i, x in enumerate(halo['hpos'][:, 0])}
-    px = {float(x): i for i, x in enumerate(part['ppos'][:, 0])}
+    lightcone = bool(c.get('origin')) and c['rsd']
+    if not lightcone:
+        hx = {float(x): i for i, x in enumerate(halo['hpos'][:, 0])}
+        px = {float(x): i for i, x in enumerate(part['ppos'][:, 0])}
+    else:
+        hx = {int(v): i for i, v in enumerate(halo['hid'])}
+        px = {}
     problems = []
     placement = {}
     used_h, used_p = {}, {}
@@ -164,8 +182,15 @@ def structural_oracle(c, n, fam, tables, tracers, out, keep_cent):
         if nc > ntot:
             problems.append('%s: Ncent %d > rows %d' % (tr, nc, ntot))
             nc = ntot
-        cen = [hx.get(float(v)) for v in x[:nc]]
-        sat = [px.get(float(v)) for v in x[nc:]]
+        if not lightcone:
+            cen = [hx.get(float(v)) for v in x[:nc]]
+            sat = [px.get(float(v)) for v in x[nc:]]
+        else:
+            a_s = tracers[tr].get('alpha_s', 1.0)
+            pvx = part['phvel'][:, 0] + a_s * (part['pvel'][:, 0] - part['phvel'][:, 0])
+            px = {(int(i), float(v)): k for k, (i, v) in enumerate(zip(part['phid'], pvx))}
+            cen = [hx.get(int(v)) for v in o['id'][:nc]]
+            sat = [px.get((int(i), float(v))) for i, v in zip(o['id'][nc:], o['vx'][nc:])]
         placement[tr] = (cen, sat)
         for name, rows, used in (('central', cen, used_h), ('satellite', sat, used_p)):
             if any(r is None for r in rows):
@@ -187,13 +212,16 @@ def structural_oracle(c, n, fam, tables, tracers, out, keep_cent):
         exp = {}
         exp['id'] = (halo['hid'][ci], part['phid'][si])
         exp['mass'] = (halo['hmass'][ci], part['phmass'][si])
-        exp['y'] = (halo['hpos'][ci, 1], part['ppos'][si, 1])
+        if not lightcone:
+            exp['y'] = (halo['hpos'][ci, 1], part['ppos'][si, 1])
         ac, as_ = hd.get('alpha_c', 0.0), hd.get('alpha_s', 1.0)
         for a, nm in enumerate(('vx', 'vy', 'vz')):
             exp[nm] = (halo['hvel'][ci, a] + ac * halo['hveldev'][ci, a],
                        part['phvel'][si, a] + as_ * (part['pvel'][si, a] - part['phvel'][si, a]))
         if not c['rsd']:
             exp['z'] = (halo['hpos'][ci, 2], part['ppos'][si, 2])
+        elif lightcone:
+            pass        # displaced along the line of sight (sqrt under fastmath): covered by the bitwise oracle only
         else:
             def wrapz(z):
                 z = np.where(z >= hg.LBOX / 2, z - hg.LBOX, z)
@@ -244,7 +272,7 @@ def check_cat_case(ctx, c):
     """all thread counts on one input (two payload families, run alternately)"""
     tabA, tabB = build_case_tables(c)
     tracers = hg.make_tracers(tuple(c['subset']), variant=c['variant'])
-    params = hg.make_params()
+    params = hg.make_params(origin=np.array(c['origin'], dtype=np.float64) if c.get('origin') else None)
     code = {'LRG': 1, 'ELG': 2, 'QSO': 3}
     ref = {}
     held = []
@@ -270,6 +298,8 @@ def check_cat_case(ctx, c):
             ngal = sum(len(o['x']) for o in out.values())
             ctx.case(case_n, nontrivial=ngal > 0)
             ctx.count('cat:runs')
+            if c.get('origin'):
+                ctx.count('cat:lightcone-origin-runs' + ('' if c['rsd'] else ':rsd-off'))
             ctx.count('cat:H<n' if c['H'] < n else ('cat:H%n!=0' if c['H'] % n else 'cat:H%n==0'))
             if ngal == 0:
                 ctx.count('cat:empty-catalogue')
@@ -361,6 +391,14 @@ def cat_cases(ctx):
                 cases.append(mk(int(rng.integers(17, 41)), int(rng.integers(40, 201)), subset, rsd, variant=variant,
                                 ranks=bool(variant)))
     if not ctx.quick:
+        # light-cone RSD (`origin` is an array instead of None: a second numba signature of gen_cent/gen_sats,
+        # ~30 s of compilation, hence thorough tier only)
+        for k, subset in enumerate(hg.SUBSETS):
+            for rsd in (True, False):
+                cc = mk(int(rng.integers(0, 41)) if k else 23, int(rng.integers(0, 201)), subset, rsd, variant=k % 2,
+                        ranks=bool(k % 2))
+                cc['origin'] = [-1000.5, -2000.25, 3000.125]
+                cases.append(cc)
         for k in range(300):
             hmax, pmax = (41, 201) if k % 3 else (130, 700)
             cases.append(mk(int(rng.integers(0, hmax)), int(rng.integers(0, pmax)), hg.SUBSETS[int(rng.integers(0, 7))],
